@@ -27,7 +27,7 @@ def worker_env(hashseed="0"):
         XLA_FLAGS="--xla_cpu_multi_thread_eigen=false intra_op_parallelism_threads=1",
         FELUPE_VERBOSE="false",
         MPLBACKEND="Agg",
-        PYTHONPATH="/repo/src" + os.pathsep + HERE,
+        PYTHONPATH=os.environ.get("FESIM_REPO_SRC", "/repo/src") + os.pathsep + HERE,
         HDF5_USE_FILE_LOCKING="FALSE",
     )
     env.pop("FELUPE_VERIF", None)
